@@ -36,7 +36,8 @@ Fails(ev, s) ==
   ELSE LET o == [op |-> ev.op, a |-> ev.a, b |-> ev.b, k |-> ev.k]
            r == Apply(s, o)
        IN IF ev.fault # 0 \/ ev.dead = 1 THEN {<<"C08", "operation crashed or lost the object">>}
-          ELSE Bad(~(ev.op \in {"Add", "Remove"}) \/ (ev.ret = 1) = r.ret, "C08",
+          ELSE Bad(~(ev.op \in (Binary \cup {"Clone"})) \/ ev.ret = 1, "C08", "operation failed without any allocation failure")
+               \cup Bad(~(ev.op \in {"Add", "Remove"}) \/ (ev.ret = 1) = r.ret, "C08",
                    "mutating call misreports whether it changed the set")
                \cup Bad(ev.op # "Codec" \/ ev.ret > 0, "C08", "deserialising the object's own serialisation failed")
                \cup Observers(ev, r.set)
